@@ -10,7 +10,7 @@ use std::cell::RefCell;
 use std::collections::{BTreeMap, HashMap};
 use std::io::Write;
 use std::rc::Rc;
-use std::sync::atomic::AtomicBool;
+use std::sync::atomic::{AtomicBool, Ordering};
 use std::sync::Arc;
 
 /// A fresh Context with the standard library loaded (cloned from a per-thread template).
@@ -23,6 +23,112 @@ pub fn sdk_context() -> Context {
         };
     }
     TEMPLATE.with(|c| c.clone())
+}
+
+/// Runs a script text on a fresh standard-library context with a quiet Env; all final variables, or
+/// the error / panic as text. Used by the "scale" families (few cases, large sizes).
+pub fn run_sdk_script(text: &str) -> Result<BTreeMap<String, String>, String> {
+    let ctx = sdk_context();
+    let (env, _o, _e, halt) = quiet_env();
+    // a run that does not end by itself is halted after 30 s (it then fails the comparison of results)
+    let done = Arc::new(AtomicBool::new(false));
+    let timer = {
+        let (done, halt) = (done.clone(), halt.clone());
+        std::thread::spawn(move || {
+            let start = std::time::Instant::now();
+            while !done.load(Ordering::SeqCst) {
+                if start.elapsed().as_secs() >= 30 {
+                    halt.store(true, Ordering::SeqCst);
+                    return true;
+                }
+                std::thread::sleep(std::time::Duration::from_millis(20));
+            }
+            false
+        })
+    };
+    let r = crate::engine::guarded(|| duckscript::runner::run_script(text, ctx, Some(env)));
+    done.store(true, Ordering::SeqCst);
+    let halted = timer.join().unwrap_or(false);
+    if halted {
+        return Err("the run did not end within 30 s and was halted".to_string());
+    }
+    match r {
+        Err(p) => Err(format!("panic: {}", p)),
+        Ok(Err(e)) => Err(format!("the run failed: {}", e)),
+        Ok(Ok(c)) => Ok(c.variables.into_iter().collect()),
+    }
+}
+
+/// `scale_case` for the properties that run inside the supervisor process (no worker): the verdict
+/// goes straight into the totals.
+pub fn scale_case_totals(t: &mut crate::engine::Totals, name: &str, text: &str, expect: &[(&str, Option<String>)]) {
+    let cj = serde_json::json!({"kind": "scale", "name": name, "script": text});
+    t.evals += 1;
+    t.transitions += 1;
+    t.traces += 1;
+    t.nontrivial += 1;
+    let family = name.split(' ').next().unwrap_or("").to_string();
+    let verdict: Result<(), (String, String)> = match run_sdk_script(text) {
+        Err(e) => Err((format!("scale:{}:run-failed", family), format!("{}: {}", name, e))),
+        Ok(vars) => {
+            let mut bad = None;
+            for (k, v) in expect {
+                if vars.get(*k) != v.as_ref() {
+                    bad = Some((format!("scale:{}:wrong-result", family), format!("{}: variable {} is {:?}, expected {:?}", name, k, vars.get(*k), v)));
+                    break;
+                }
+            }
+            match bad {
+                Some(b) => Err(b),
+                None => Ok(()),
+            }
+        }
+    };
+    if let Err((sig, what)) = verdict {
+        let e = t.failures.entry(sig.clone()).or_insert((0, vec![]));
+        e.0 += 1;
+        e.1.push(serde_json::json!({"idx": 0, "sig": sig, "what": what, "replay": cj}));
+    }
+    *t.counters.entry("scale_cases".to_string()).or_insert(0) += 1;
+}
+
+/// One scale case: the script must end with exactly the expected values for the named variables
+/// (an expected value of None means "must be undefined").
+pub fn scale_case(w: &mut crate::engine::Worker, name: &str, text: &str, expect: &[(&str, Option<String>)]) {
+    if !w.take() {
+        return;
+    }
+    let cj = serde_json::json!({"kind": "scale", "name": name, "script": text});
+    w.begin(|| cj.clone());
+    w.add_transitions(1);
+    match run_sdk_script(text) {
+        Err(e) => w.fail(&format!("scale:{}:run-failed", name.split(' ').next().unwrap_or("")), &format!("{}: {}", name, e), cj),
+        Ok(vars) => {
+            for (k, v) in expect {
+                if vars.get(*k) != v.as_ref() {
+                    w.fail(
+                        &format!("scale:{}:wrong-result", name.split(' ').next().unwrap_or("")),
+                        &format!("{}: variable {} is {:?}, expected {:?}", name, k, vars.get(*k), v),
+                        cj,
+                    );
+                    return;
+                }
+            }
+            w.pass(true, crate::engine::hash64(&("scale", name.split(' ').next().unwrap_or(""))));
+        }
+    }
+}
+
+/// replay of a scale case: the final variables (handle names masked)
+pub fn scale_replay(case: &serde_json::Value) -> Option<Result<String, String>> {
+    if case["kind"].as_str() != Some("scale") {
+        return None;
+    }
+    let text = case["script"].as_str().unwrap_or("");
+    Some(Ok(match run_sdk_script(text) {
+        Ok(v) => mask_handles(&format!("variables: {:?}", v)),
+        Err(e) => e,
+    }))
 }
 
 #[derive(Clone, Default)]
